@@ -277,6 +277,10 @@ def main(tier, replay=None, selftest=False):
             else:
                 if not req["line"].startswith("POST "):
                     problems.append("request line %r is not a POST" % req["line"])
+                # "one JSON body": it is labelled as such
+                ctype = [v for k, v in req["headers"] if k.lower() == "content-type"]
+                if not any(v.lower().startswith("application/json") for v in ctype):
+                    problems.append("the JSON body is sent with Content-Type %s" % (ctype or "missing"))
                 try:
                     body = json.loads(req["body"])
                 except ValueError:
